@@ -1,7 +1,7 @@
 import Jp.Gen.Features
 /-
   C20 — Every feature combination builds (partial: rustc's name resolution is abstracted by the
-  translator tools/featgen.py; the exhaustive `cargo check` sweep over the same 256 subsets is the
+  translator tools/featgen.py; the exhaustive `cargo check` sweep over the same subsets is the
   correspondence check). `Jp.Gen.table` is regenerated from /repo on every run, so this theorem is
   re-checked by the kernel against what the source says now.
 -/
@@ -11,20 +11,21 @@ open Jp.Spec.Features
 -- OBLIGATIONS
 -- all_subsets_build closure_contains default_closure_example std_gates_are_behaviour_neutral
 
-/-- for every subset of the eight features, every reference enabled under its closure is available -/
-theorem all_subsets_build : ∀ m : Fin 256, builds Jp.Gen.table m.val = true := by
+/-- for every subset of the crate's features (all `2 ^ nFeat` of them; `nFeat` is read from Cargo.toml on every
+    run — 8 on the pinned tree), every reference enabled under its closure is available -/
+theorem all_subsets_build : ∀ m : Fin (2 ^ Jp.Gen.nFeat), builds Jp.Gen.table m.val = true := by
   decide +kernel
 
 /-- the closure only adds features -/
-theorem closure_contains : ∀ m : Fin 256, ∀ i : Fin 8,
-    has m.val i.val = true → has (closure Jp.Gen.table.featEdges m.val) i.val = true := by
+theorem closure_contains : ∀ m : Fin (2 ^ Jp.Gen.nFeat), ∀ i : Fin Jp.Gen.nFeat,
+    has m.val i.val = true → has (closure Jp.Gen.nFeat Jp.Gen.table.featEdges m.val) i.val = true := by
   decide +kernel
 
-/-- non-vacuity: `delete` alone pulls in `resolve`; `std` pulls in `serde`; some rows are live -/
+/-- non-vacuity: every declared implication `f ⇒ g` is honoured by the closure of `{f}` alone (on the pinned tree:
+    `delete` pulls in `resolve`, `std` pulls in `serde`, …), and with every feature on some rows are live -/
 theorem default_closure_example :
-    has (closure Jp.Gen.table.featEdges (1 <<< 6)) 5 = true ∧
-    has (closure Jp.Gen.table.featEdges (1 <<< 0)) 1 = true ∧
-    (Jp.Gen.table.rows.any fun r => r.gates.all (·.eval 255)) = true := by
+    (Jp.Gen.table.featEdges.all fun e => has (closure Jp.Gen.nFeat Jp.Gen.table.featEdges (1 <<< e.1)) e.2) = true ∧
+    (Jp.Gen.table.rows.any fun r => r.gates.all (·.eval (2 ^ Jp.Gen.nFeat - 1))) = true := by
   decide +kernel
 
 /-- second half (the core behaves the same without std): every region or attribute of the crate whose
